@@ -139,7 +139,9 @@ class G:
             d["sig"].insert(at, ("cz", "cdefault", None))
         d["buffered"] = r.random() < 0.25
         d["filter"] = "fz" if r.random() < 0.25 else None
-        d["decorator"] = (not d["buffered"]) and nested_level == 0 and r.random() < 0.15
+        d["decorator"] = (not d["buffered"]) and nested_level == 0 and r.random() < 0.2
+        if d["decorator"] and any(k_ == "kwargs" for n_, k_, _ in d["sig"]) and r.random() < 0.7:
+            d["decorator"] = "kdeco"  # a decorator whose wrapper adds a keyword argument (collected by the def's **kw)
         d["takes_content"] = nested_level == 0 and r.random() < 0.5
         d["cb_keys"] = ["k1"] if d["takes_content"] and r.random() < 0.5 else []
         # the body of a call may also declare keyword-only and ** parameters, which the callee fills by keyword
